@@ -60,7 +60,12 @@ def contents():
     pl += [pdbio.atom_line("HETATM", 10 + i, "C%d" % (i + 1), " ", "BLK", "A", 2, " ", x + 20000, y + 20000, z + 20000, elem="C")
            for i, (x, y, z) in enumerate(bulk)]
     p = C.join(pl)
-    return {"a": a, "u": u, "m": m, "c": c, "b": b, "f": "\ufeff" + a, "t": t, "p": p}
+    # "r": two chains, the first without terminal oxygen, separated by a TER record without trailing blanks, written with
+    # CR-LF line ends (a path is read with universal newlines, a stream as it is)
+    ra = [ln for ln in C.chain_lines("1HPX", "A", 85, 14) if ln[12:16].strip() != "OXT"]
+    rb = C.chain_lines("1HPX", "B", 0, 10)
+    r_ = "\r\n".join([ln.rstrip() if ln.startswith("TER") else ln for ln in ra + ["TER"] + rb + ["TER", "END"]]) + "\r\n"
+    return {"a": a, "u": u, "m": m, "c": c, "b": b, "f": "\ufeff" + a, "t": t, "p": p, "r": r_}
 
 
 def options_for(cid, o, texts):
@@ -138,6 +143,8 @@ def run(ctx):
     systematic.append([{"c": "c", "o": "cB", "via": "single"}, {"c": "c", "o": "d", "via": "main1"}, {"c": "a", "o": "default", "via": "single"}])
     systematic.append([{"c": "f", "o": "default", "via": "single", "mode": "path"}, {"c": "f", "o": "default", "via": "single", "mode": "stream"},
                        {"c": "f", "o": "default", "via": "main1", "mode": "path"}])
+    systematic.append([{"c": "r", "o": "default", "via": "single", "mode": "path"}, {"c": "r", "o": "default", "via": "single", "mode": "stream"},
+                       {"c": "r", "o": "default", "via": "main1", "mode": "path"}])
     # the caller's stream object handed in twice, and one the caller has already read from
     systematic.append([{"c": "a", "o": "default", "via": "single", "mode": "stream-reused"}, {"c": "a", "o": "default", "via": "single", "mode": "stream-reused"},
                        {"c": "a", "o": "default", "via": "single", "mode": "path"}])
